@@ -201,9 +201,14 @@ pub fn check_case(case: &Case) -> CheckResult {
         }
         let mut got = Vec::new();
         traverse::walk_symbols(tree, SymbolFilter::All, |s| got.push((triple(&s), s.get_qualified_name(), s.get_name())));
-        if got.len() != syms.len() || got.iter().zip(syms.iter()).any(|(g, s)| g.0 .0 != s.kind || (g.0 .2, g.0 .3) != (s.start, s.end)) {
+        // (an unnamed argument has no name span to compare: C04 / C15 do not pin it either)
+        if got.len() != syms.len() || got.iter().zip(syms.iter()).any(|(g, s)| g.0 .0 != s.kind || (!(s.kind == "Arg" && s.name.is_none()) && (g.0 .2, g.0 .3) != (s.start, s.end))) {
             // traversal itself differs: C15's business
             r.outcomes.push("skipped (traversal order differs: C15)".into());
+            if std::env::var("VERIF_DEBUG_C17").is_ok() {
+                let d = got.iter().zip(syms.iter()).position(|(g, s)| g.0 .0 != s.kind || (g.0 .2, g.0 .3) != (s.start, s.end));
+                eprintln!("SKIP {id} got={} want={} first_diff={:?} got={:?} want={:?}", got.len(), syms.len(), d, d.map(|i| &got[i]), d.map(|i| (&syms[i].kind, syms[i].start, syms[i].end)));
+            }
             continue;
         }
         for (g, s) in got.iter().zip(syms.iter()) {
